@@ -67,16 +67,20 @@ Adopt(t, real) ==
                   THEN [has |-> TRUE, val |-> [y \in WillKeys \cap DOMAIN real[x].val |-> real[x].val[y]]]
                   ELSE real[x]]
 
-RealType(obs) == IF \E t \in 0..15 : TypeName(t) = obs.type THEN TypeNum(obs.type) ELSE -1
+RealType(obs) == IF \E t \in 0..16 : TypeName(t) = obs.type THEN TypeNum(obs.type) ELSE -1
 
 (* bystanders: every live handle other than h still reports its model state *)
+(* the will of CONNECT g is the packet h the event names: Will() shows that packet live *)
+WillOf(g, h) == pool[g].t = 1 /\ pool[g].o["Will"].has /\ "ref" \in DOMAIN pool[g].o["Will"] /\ pool[g].o["Will"].ref = h
 Bystanders(e, h) ==
   IF ~Has(e, "all") THEN TRUE
   ELSE \A j \in 1..Len(e.all) :
          LET g == e.all[j][1]  ob == e.all[j][2] IN
          IF g = h \/ g \notin DOMAIN pool THEN TRUE
-         ELSE NoteIf(ObsDiff(pool[g].o, ob) # {}, "C14", "a packet changed although the operation did not name it",
-                     [h |-> g, keys |-> ObsDiff(pool[g].o, ob)])
+         ELSE LET d == ObsDiff(pool[g].o, ob) \ (IF WillOf(g, h) THEN {"Will"} ELSE {}) IN
+              /\ NoteIf(d # {}, "C14", "a packet changed although the operation did not name it", [h |-> g, keys |-> d])
+              /\ NoteIf(d # {} /\ prog.fam = "seq", "C06", "a packet returned earlier changed when a later frame of the stream was read", [h |-> g, keys |-> d])
+              /\ NoteIf(d # {} /\ pool[g].t = 0, "C16", "an Undefined packet no longer carries the bytes of its frame", [h |-> g])
 
 (* derived observations that ride on every event carrying obs *)
 WFCheck(t, o, obs) ==
@@ -118,16 +122,25 @@ EvPub(e) ==
   /\ Bystanders(e, e.h)
   /\ KeepStream /\ KeepAuxTouch(e.h) /\ UNCHANGED prog
 
+(* arguments that are handles of TopicFilter values the program keeps: the call receives a copy of the value *)
+CallArgs(e) == IF Has(e, "refs")
+               THEN [i \in 1..Len(e.args) |-> <<pool[e.args[i].h].o["Filter"], pool[e.args[i].h].o["Options"]>>]
+               ELSE e.args
 EvCall(e) ==
   LET h == e.h IN
   IF h \in DOMAIN pool /\ Known(pool[h].t, pool[h].o, e.m)
   THEN LET t == pool[h].t
            wp == IF e.m = "SetWill" THEN pool[e.args[1].h].o ELSE EmptyFn
-           o2 == Apply(t, pool[h].o, e.m, e.args, wp)
+           o2 == Apply(t, pool[h].o, e.m, CallArgs(e), wp)
            d == IF Has(e, "obs") THEN ObsDiff(o2, e.obs) ELSE {}
-       IN /\ IF d = {} THEN Call(h, e.m, e.args)
+           \* CONNECT packets whose will is the packet h: Will() reports h live, and the will is no longer "as attached"
+           Relink(pl) == [g \in DOMAIN pl |->
+                            IF g # h /\ WillOf(g, h)
+                            THEN [pl[g] EXCEPT !.o["Will"] = [@ EXCEPT !.val = WillSnapshot(pl[h].o), !.stale = TRUE]]
+                            ELSE pl[g]]
+       IN /\ IF d = {} THEN pool' = Relink([pool EXCEPT ![h].o = o2])       \* = PacketAPI!Call(h, e.m, e.args), wills relinked
              ELSE /\ Note("C12", "accessors after the call differ from the record-of-fields model", [m |-> e.m, keys |-> d])
-                  /\ pool' = [pool EXCEPT ![h].o = Adopt(t, e.obs)]
+                  /\ pool' = Relink([pool EXCEPT ![h].o = Adopt(t, e.obs)])
           /\ (Has(e, "obs") => WFCheck(t, o2, e.obs))
           /\ Bystanders(e, h)
           /\ KeepStream /\ KeepAuxTouch(h) /\ UNCHANGED prog
@@ -155,8 +168,11 @@ EvWriteTo(e) ==
      /\ (~good => Count("write-faulty"))
      /\ IF good /\ t # 0 /\ InC02Domain(t, o) /\ Framed(bytes)
         THEN LET d == StrictDecode(bytes) IN
-             IF ~d.ok THEN Note("C02", "frame rejected by the strict reading of MQTT v5.0", [why |-> d.why, at |-> d.at, frame |-> bytes])
+             IF ~d.ok THEN /\ Note("C02", "frame rejected by the strict reading of MQTT v5.0", [why |-> d.why, at |-> d.at, frame |-> bytes])
+                           /\ NoteIf(prog.fam \in {"api", "reuse"}, "C12", "the encoded frame does not reflect the final state of the setters", [why |-> d.why])
              ELSE /\ NoteIf(d.pkt.t # t, "C02", "frame carries another packet type", [t |-> d.pkt.t])
+                  /\ NoteIf(prog.fam \in {"api", "reuse"} /\ d.pkt.t = t /\ ObsDiff(o, ObsOfWire(d.pkt)) # {}, "C12",
+                            "the encoded frame does not reflect the final state of the setters", [keys |-> ObsDiff(o, ObsOfWire(d.pkt))])
                   /\ NoteIf(d.pkt.t = t /\ ObsDiff(o, ObsOfWire(d.pkt)) # {}, "C02", "frame does not carry the values that were set",
                             [keys |-> IF d.pkt.t = t THEN ObsDiff(o, ObsOfWire(d.pkt)) ELSE {}, frame |-> bytes])
         ELSE TRUE
@@ -180,6 +196,30 @@ EvWriteN(e) ==
   /\ (Has(e, "obs") => NoteIf(ObsDiff(o, e.obs) # {}, "C11", "WriteTo changed what the accessors return", [keys |-> ObsDiff(o, e.obs)]))
   /\ enc' = IF Len(e.outs) >= 1 THEN (h :> [o |-> o, bytes |-> e.outs[1], clean |-> TRUE]) @@ enc ELSE enc
   /\ UNCHANGED <<pool, from, contig, memo, diag, prog>> /\ KeepStream
+
+(* values the caller keeps and reuses: a TopicFilter (type 16), a []TopicFilter passed with "..." (type 17) *)
+EvNewFilter(e) ==
+  LET o == [Filter |-> e.args[1], Options |-> e.args[2]] IN
+  /\ Put(e.h, [t |-> 16, o |-> o])
+  /\ (Has(e, "obs") => NoteIf(ObsDiff(o, e.obs) # {}, "C12", "TopicFilter does not report its arguments", [keys |-> ObsDiff(o, e.obs)]))
+  /\ Bystanders(e, e.h)
+  /\ KeepStream /\ KeepAux /\ UNCHANGED prog
+EvSlice(e) ==
+  /\ Put(e.h, [t |-> 17, o |-> [Items |-> e.args]])
+  /\ KeepStream /\ KeepAux /\ UNCHANGED prog
+EvSliceSet(e) ==          \* the caller writes into its own slice: no packet may change (no re-synchronisation: the packets keep
+  /\ Bystanders(e, 0)    \* the values that were set, so a later WriteTo is still judged against them)
+  /\ pool' = [pool EXCEPT ![e.h].o["Items"] = IF e.n >= Len(@) THEN Append(@, e.args[1]) ELSE [@ EXCEPT ![e.n + 1] = e.args[1]]]
+  /\ KeepStream /\ KeepAux /\ UNCHANGED prog
+EvCallSpread(e) ==        \* p.M(xs...) with xs the caller's slice or the list another packet's accessor returned
+  LET h == e.h  t == pool[h].t
+      xs == IF e.key = "" THEN pool[e.from].o["Items"] ELSE pool[e.from].o[e.key]
+      o2 == Apply(t, pool[h].o, e.m, xs, EmptyFn)
+      d == IF Has(e, "obs") THEN ObsDiff(o2, e.obs) ELSE {}
+  IN /\ NoteIf(d # {}, "C12", "accessors after the call differ from the record-of-fields model", [m |-> e.m, keys |-> d])
+     /\ pool' = [pool EXCEPT ![h].o = o2]
+     /\ Bystanders(e, h)
+     /\ KeepStream /\ KeepAuxTouch(h) /\ UNCHANGED prog
 
 EvStream(e) ==
   /\ wire' = e.bytes /\ limit' = e.limit /\ fate' = e.fate /\ with' = e.with /\ pos' = 0 /\ rp' = Idle
@@ -224,6 +264,11 @@ EvFilter(e) ==
 
 (* direct UnmarshalBinary of a buffer: the result is adopted; totality and   *)
 (* list bounds are judged (C04, C05)                                         *)
+(* memory: bytes allocated during the decode against 256 x frame length + 1 MiB (measured worst legitimate ratio ~54) *)
+AllocBound(e, len) ==
+  IF ~Has(e, "alloc") THEN TRUE
+  ELSE NoteIf(e.alloc \div 256 > len + 4096, "C05", "decoding allocated far more than proportional to the frame",     \* (no 32-bit overflow)
+              [alloc |-> e.alloc, len |-> len])
 ListBound(e, len) ==
   IF ~Has(e, "lens") THEN TRUE
   ELSE \A x \in DOMAIN e.lens :
@@ -232,6 +277,7 @@ ListBound(e, len) ==
 EvUnmarshal(e) ==
   LET t == TypeNum(e.type) IN
   /\ (~e.err => ListBound(e, Len(e.data)))
+  /\ AllocBound(e, Len(e.data))
   /\ pool' = (e.h :> [t |-> t, o |-> IF Has(e, "obs") THEN Adopt(t, e.obs) ELSE NewObs(t)]) @@ pool
   /\ Bystanders(e, e.h)
   /\ Touch(e.h) /\ UNCHANGED <<from, contig, memo, diag, prog>> /\ KeepStream
@@ -353,6 +399,10 @@ Step(e) ==
   ELSE IF e.ev = "WriteTo" THEN EvWriteTo(e)
   ELSE IF e.ev = "WriteN" THEN EvWriteN(e)
   ELSE IF e.ev = "Stream" THEN EvStream(e)
+  ELSE IF e.ev = "NewFilter" THEN EvNewFilter(e)
+  ELSE IF e.ev = "Slice" THEN EvSlice(e)
+  ELSE IF e.ev = "SliceSet" THEN EvSliceSet(e)
+  ELSE IF e.ev = "CallSpread" THEN EvCallSpread(e)
   ELSE IF e.ev = "Diag" THEN EvDiag(e)
   ELSE IF e.ev = "CmpDiag" THEN EvCmpDiag(e)
   ELSE IF e.ev = "Filter" THEN EvFilter(e)
@@ -402,7 +452,7 @@ ReadReturn(e) ==                                     \* k = Len(calls) + 1
       res == IF e.ok THEN "pkt" ELSE "err"
       faulty == rp.fault # "nil" \/ limit < Len(wire)
       judge == complete /\ rp.fault \in {"nil", "eof"}            \* the frame itself decides the outcome
-      v == IF judge THEN Verdict(g) ELSE [kind |-> "none"]
+      v == IF judge /\ prog.fam # "many" THEN Verdict(g) ELSE [kind |-> "none"]   \* long lists: only the resource bounds are judged
       t1 == IF Len(g) > 0 THEN g[1] \div 16 ELSE -1
       rt == IF Has(e, "obs") THEN RealType(e.obs) ELSE -1
       src == IF from # 0 /\ from \in DOMAIN pool THEN pool[from] ELSE [t |-> -1]
@@ -462,6 +512,7 @@ ReadReturn(e) ==                                     \* k = Len(calls) + 1
      ELSE TRUE
   /\ memo' = IF judge /\ g \notin DOMAIN memo /\ contig THEN (g :> Outcome(e)) @@ memo ELSE memo
   /\ (judge /\ e.ok => ListBound(e, Len(g)))
+  /\ AllocBound(e, IF Header(g).hdr THEN Header(g).total ELSE Len(g) + 8)
   \* the decoded packet becomes a live handle
   /\ LET conforms == v.kind = "accept" /\ rt = v.pkt.t /\ ObsDiff(ObsOfWire(v.pkt), e.obs) = {}
          o2 == IF conforms THEN ObsOfWire(v.pkt) ELSE Adopt(rt, e.obs)        \* re-synchronise after a divergence
@@ -470,6 +521,7 @@ ReadReturn(e) ==                                     \* k = Len(calls) + 1
         /\ enc' = IF e.ok /\ Has(e, "reenc") /\ ~e.reencFailed /\ rt >= 0
                   THEN (e.h :> [o |-> o2, bytes |-> e.reenc, clean |-> TRUE]) @@ enc
                   ELSE enc
+  /\ Bystanders(e, e.h)                              \* reading a frame changes no packet returned earlier
   /\ RP_ReturnEff
   /\ k' = 0 /\ ph' = "req" /\ l' = l + 1
   /\ UNCHANGED <<prog, from, contig, diag>>
